@@ -59,6 +59,8 @@ def verify_relational(make_ctx, reg, name, timeout_ms=10000):
     rep.file, rep.sha, rep.lines = fis[0][0].path, fis[0][0].sha, list(fis[0][0].lines)
     dtags = tuple(rel.get("tags", ("all",)))
     ctx.policy.update(rel.get("calls", {}))
+    reg.rel_loops = rel.get("loops", {})
+    reg.rel_blocks = rel.get("abstract_blocks", {})
 
     def body(run, it):
         run.cur_tags = dtags
@@ -126,9 +128,13 @@ def verify_relational(make_ctx, reg, name, timeout_ms=10000):
         run.n_assume = len(run.pc)
         run.old_state = S.snapshot(run, joint)
         outs = []
+        shared_store = {}
         for idx, (fi, ci, env, pn, is_init, c, recv) in enumerate(envs):
             fr = X.Frame(dict(env), fi, fi.cls, module=fi.module)
             args = ([env["self"]] if "self" in env else []) + [env[p] for p in pn]
+            if "vary" in rel and quals[0] == quals[1]:
+                run.rel_share = {"side": idx, "store": shared_store, "vary_params": set(rel.get("vary_params", [])),
+                                 "vary_fields": set(rel.get("vary", []))}
             try:
                 callenv = it.bind(fi.node, list(args), {}, fr, None, fr)
                 nf = X.Frame(callenv, fi, fi.cls, module=fi.module)
@@ -158,7 +164,11 @@ def verify_relational(make_ctx, reg, name, timeout_ms=10000):
     except Unsupported as u:
         rep.undecided = "unsupported: %s" % u
         rep.time = time.time() - t0
+        reg.rel_loops = {}
+        reg.rel_blocks = {}
         return rep
+    reg.rel_loops = {}
+    reg.rel_blocks = {}
     seen = set()
     for run, outcome in results:
         rep.paths += 1
